@@ -244,6 +244,32 @@ func checkC08(c *CaseC08, fl *Fails) {
 }
 
 func sweepC08(tier string, emit func(*CaseC08)) {
+	// two voxels 2^k - j cells apart along each axis (j = 0 .. 2*layers+1), k at the widths of packed coordinate fields
+	for _, k := range []uint{8, 10, 16, 20, 21, 24, 31, 32} {
+		for _, layers := range []int64{1, 4} {
+			if tier == "quick" && layers == 4 && k != 21 && k != 16 {
+				continue
+			}
+			for j := int64(0); j <= 2*layers+1; j++ {
+				d := (int64(1) << k) - j
+				base := ref.Box{H: 34, X: 1 << 20, Y: 3 << 19, V: 34, F: -5}
+				for axis := 0; axis < 3; axis++ {
+					o := base
+					switch axis {
+					case 0:
+						o.X += d
+					case 1:
+						o.Y += d
+					default:
+						o.F += d
+					}
+					if o.Valid() {
+						emit(&CaseC08{Boxes: []ref.Box{base, o}, HL: layers, VL: layers})
+					}
+				}
+			}
+		}
+	}
 	// two voxels with the same small index numbers at every pair of zoom pairs (h, v) / (h', v') with |h - h'| <= 1:
 	// any key that packs the zooms and the numbers of a voxel into one value must keep them apart
 	for _, h := range []int64{20, 34} {
